@@ -51,6 +51,13 @@ ASSUMPTIONS = [
 FLOORS = {"feasibility_checked": 300, "easy_must_succeed": 100,
           "kernel_quiescent_invariant": 200, "c_kernel_under_asan": 20,
           "documented_error": 20}
+ANCHORS = [("rig.place_and_route.place.sa.python_kernel", "_step",
+            {"dead_destination": "if dst_location not in machine:",
+             "destination_too_small": ("return (False, 0.0)", 2),
+             "source_too_small": ("return (False, 0.0)", 3),
+             "swap_done": "_swap([src_vertex], src_location,"}),
+           ("rig.place_and_route.place.utils", "apply_same_chip_constraints",
+            {"group_merged": "merged_vertex = MergedVertex("})]
 SHARDS = {"quick": 16, "thorough": 64}
 TIMEOUT = {"quick": 900, "thorough": 6 * 3600}
 CRASH_IS_VIOLATION = True
